@@ -84,6 +84,9 @@ Definition truncate {A} (keep : nat) (l : list A) : list A := skipn (List.length
 (* ---- fmt verbs ---- *)
 Definition is_verb (v : string) (c : string) : bool := String.eqb v ("%" ++ c).
 
+(* the variable that holds the bound on the rounds of a while loop (SWhile) *)
+Definition loop_fuel_var : string := "$fuel".
+
 Section Run.
   (* which dynamic types satisfy a type assertion x.(T) *)
   Variable implements : string -> string -> bool.
@@ -153,6 +156,18 @@ Section Run.
       | VStr b, VInt z => if ((z <? 0) || (Z.of_nat (List.length b) <? z))%Z then Fail "panic" else Ok (VStr (skipn (Z.to_nat z) b))
       | _, _ => Fail "slice"
       end
+    | ESlice e' lo hi =>
+      (* e[lo:hi]: Go panics unless 0 <= lo <= hi <= len(e) *)
+      v <- eval en e' ;; k <- eval en lo ;; h <- eval en hi ;;
+      match v, k, h with
+      | VList l, VInt z, VInt y =>
+        if ((z <? 0) || (y <? z) || (Z.of_nat (List.length l) <? y))%Z then Fail "panic"
+        else Ok (VList (firstn (Z.to_nat (y - z)) (skipn (Z.to_nat z) l)))
+      | VStr b, VInt z, VInt y =>
+        if ((z <? 0) || (y <? z) || (Z.of_nat (List.length b) <? y))%Z then Fail "panic"
+        else Ok (VStr (firstn (Z.to_nat (y - z)) (skipn (Z.to_nat z) b)))
+      | _, _, _ => Fail "slice"
+      end
     | EId x => match lookup x en with Some v => Ok v | None => Fail ("unbound " ++ x) end
     | ESel e' f =>
       v <- eval en e' ;;
@@ -209,6 +224,11 @@ Section Run.
              if String.eqb op ">" then Ok (VBool (q <? p)%Z) else if String.eqb op "<" then Ok (VBool (p <? q)%Z)
              else if String.eqb op ">=" then Ok (VBool (q <=? p)%Z) else if String.eqb op "<=" then Ok (VBool (p <=? q)%Z)
              else Fail ("operator " ++ op)
+           | VStr p, VStr q =>
+             (* Go orders strings bytewise, lexicographically *)
+             if String.eqb op ">" then Ok (VBool (bytes_ltb q p)) else if String.eqb op "<" then Ok (VBool (bytes_ltb p q))
+             else if String.eqb op ">=" then Ok (VBool (negb (bytes_ltb p q))) else if String.eqb op "<=" then Ok (VBool (negb (bytes_ltb q p)))
+             else Fail ("operator " ++ op)
            | _, _ => Fail ("operator " ++ op ++ " on non-integers")
            end
     | EAssert e' ty =>
@@ -225,6 +245,10 @@ Section Run.
       | VList l, VInt z =>
         if (z <? 0)%Z then Fail "panic"        (* Go: index out of range *)
         else match nth_error l (Z.to_nat z) with Some w => Ok w | None => Fail "panic" end
+      | VStr b, VInt z =>
+        (* s[i] of a string: the byte, as an integer 0..255 *)
+        if (z <? 0)%Z then Fail "panic"
+        else match nth_error b (Z.to_nat z) with Some c => Ok (VInt (Z.of_N (bN c))) | None => Fail "panic" end
       | VNil, VInt _ => Fail "panic"             (* indexing a nil slice *)
       | VList l, VStr key =>
         (* a Go map: a list of key/value pairs *)
@@ -429,6 +453,23 @@ Section Run.
       if stopped stop && negb (is_cont stop) then Ok (en2, buf1, stop) else for_loop body k v r (i + 1)%Z en2 buf1
     end.
 
+  (* for cond { body } and for ; cond; post { body }: the condition, the body in its scope, the post statement;
+     at most n rounds, the round that finds the condition false included *)
+  Fixpoint while_loop (cond : env -> bytes -> res val) (body post : env -> bytes -> res st) (n : nat) (en : env) (buf : bytes) : res st :=
+    match n with
+    | O => Fail "out of fuel"
+    | S n' =>
+      c <- cond en buf ;;
+      match c with
+      | VBool false => Ok (en, buf, Run)
+      | VBool true =>
+        '(en1, buf1, stop) <- body en buf ;;
+        if stopped stop && negb (is_cont stop) then Ok (en1, buf1, stop)
+        else '(en2, buf2, _) <- post en1 buf1 ;; while_loop cond body post n' en2 buf2
+      | _ => Fail "condition is not a boolean"
+      end
+    end.
+
   Fixpoint exec1 (s : gstmt) (en : env) (buf : bytes) {struct s} : res st :=
     let fix block (ss : list gstmt) (en : env) (buf : bytes) : res st :=
       match ss with
@@ -574,6 +615,16 @@ Section Run.
              end
            end) 128 en0 buf0 ;;
       Ok (truncate (List.length en) en1, buf1, stop)
+    | SWhile cond post body =>
+      (* the number of rounds every such loop may take is the value of the variable $fuel (no Go identifier):
+         the caller of the body supplies it among the globals; without it, or when it runs out, the run fails *)
+      match lookup loop_fuel_var en with
+      | Some (VInt n) =>
+        '(en1, buf1, stop) <-
+          while_loop (fun en buf => eval (Z.of_nat (List.length buf)) en cond) (scoped body) (block post) (Z.to_nat n) en buf ;;
+        Ok (truncate (List.length en) en1, buf1, stop)
+      | _ => Fail "no loop fuel"
+      end
     | SFor k v coll body =>
       c <- eval (Z.of_nat (List.length buf)) en coll ;;
       let items := match c with
@@ -635,5 +686,18 @@ Fixpoint call_symbolic (implements : string -> string -> bool) (globals : env) (
     match find_printer ty m with
     | Some p => run_body implements (call_symbolic implements globals f) globals p recv
     | None => Ok (app m (match recv with VTuple vs => vs | v => [v] end))
+    end
+  end.
+
+(* the same knot over any table of translated bodies (natsort_bodies) *)
+Definition find_in (tbl : list printer) (ty m : string) : option printer :=
+  find (fun p => String.eqb (p_type p) ty && String.eqb (p_method p) m) tbl.
+Fixpoint call_table (tbl : list printer) (implements : string -> string -> bool) (globals : env) (fuel : nat) (ty m : string) (recv : val) : res val :=
+  match fuel with
+  | O => Fail "out of fuel"
+  | S f =>
+    match find_in tbl ty m with
+    | Some p => run_body implements (call_table tbl implements globals f) globals p recv
+    | None => Fail ("no body " ++ ty ++ "." ++ m)
     end
   end.
